@@ -24,6 +24,7 @@ type vfC03Case struct {
 	ClientTF     *vfTF
 	Handler      int // 0 none, 1 returns not populated, 2 publishes then Populated, 3 error, 4 Populated without publishing
 	HandlerTags  map[string]string
+	Window       []map[string]string // tags of publications issued while the subscribe is parked right after its first history read (no handler)
 }
 
 func (c vfC03Case) String() string {
@@ -31,8 +32,12 @@ func (c vfC03Case) String() string {
 	for i, o := range c.Ops {
 		ops[i] = o.String()
 	}
-	return fmt.Sprintf("ttl=%ds meta=%ds limit=%d ops=[%s] sub{mode=%d proto=%s offPick=%d epochKind=%d serverTF=%s clientTF=%s cacheEmptyHandler=%d handlerTags=%s}",
-		c.TTL, c.MetaTTL, c.Limit, strings.Join(ops, " "), c.Mode, c.Proto, c.OffPick, c.EpochKind, c.ServerTF, c.ClientTF, c.Handler, vfTagsStr(c.HandlerTags))
+	win := make([]string, len(c.Window))
+	for i, t := range c.Window {
+		win[i] = vfTagsStr(t)
+	}
+	return fmt.Sprintf("ttl=%ds meta=%ds limit=%d ops=[%s] sub{mode=%d proto=%s offPick=%d epochKind=%d serverTF=%s clientTF=%s cacheEmptyHandler=%d handlerTags=%s} windowPubs=[%s]",
+		c.TTL, c.MetaTTL, c.Limit, strings.Join(ops, " "), c.Mode, c.Proto, c.OffPick, c.EpochKind, c.ServerTF, c.ClientTF, c.Handler, vfTagsStr(c.HandlerTags), strings.Join(win, " "))
 }
 
 func vfC03Gen(rt *rapid.T) vfC03Case {
@@ -63,6 +68,11 @@ func vfC03Gen(rt *rapid.T) vfC03Case {
 	c.ClientTF = vfTFGenOpt(rt, "ctf")
 	c.Handler = rapid.SampledFrom([]int{0, 0, 1, 2, 2, 3, 4}).Draw(rt, "handler")
 	c.HandlerTags = vfTagsGen(rt, "htags")
+	if c.Handler == 0 && rapid.IntRange(0, 1).Draw(rt, "window") == 0 {
+		for i, n := 0, rapid.IntRange(1, 3).Draw(rt, "windowPubs"); i < n; i++ {
+			c.Window = append(c.Window, vfTagsGen(rt, "wtags"))
+		}
+	}
 	return c
 }
 
@@ -168,6 +178,43 @@ func vfC03Run(t *testing.T, cs vfC03Case, out *vfC03Out, isKnown func(string) bo
 		conn := w.NewConn(vfConnCfg{Name: "s", User: "u", Proto: cs.Proto, Uni: cs.Mode == 3})
 		var res *protocol.SubscribeResult
 		var replyErr *protocol.Error
+		// State the recovered flag is decided on: the moment of the subscribe's history read.
+		newestAtRead := len(m.retained) > 0
+		var window []vfC02ModelPub
+		windowEpochChange := false
+		gateOn := len(cs.Window) > 0
+		w.broker.Hook = func(op, phase, hch string) error {
+			if gateOn && op == "history" && phase == "after" && hch == ch {
+				w.Gates.Pass("history")
+			}
+			return nil
+		}
+		runParked := func(f func()) {
+			if !gateOn {
+				f()
+				return
+			}
+			w.Gates.Arm("history", 1)
+			done := make(chan struct{})
+			go func() { defer close(done); f() }()
+			vfSettle()
+			if w.Gates.Waiting("history") > 0 {
+				for i, tg := range cs.Window {
+					data := fmt.Sprintf(`{"w":%d}`, i)
+					pr, err := w.node.Publish(ch, []byte(data), WithHistory(5, time.Duration(cs.TTL)*time.Second, time.Duration(cs.MetaTTL)*time.Second), WithTags(tg))
+					if err != nil || curEpoch == "" || pr.Epoch != curEpoch {
+						windowEpochChange = true // stream (re)created inside the window: not judged here
+					}
+					window = append(window, vfC02ModelPub{Off: pr.Offset, Tags: tg, Data: data})
+				}
+				vfSettle()
+			}
+			gateOn = false
+			w.Gates.Disarm("history")
+			for w.Gates.Release("history") {
+			}
+			<-done
+		}
 		switch cs.Mode {
 		case 0, 1:
 			conn.Connect(nil)
@@ -176,7 +223,7 @@ func vfC03Run(t *testing.T, cs vfC03Case, out *vfC03Out, isKnown func(string) bo
 				req.Recover, req.Offset, req.Epoch = true, reqOffset, reqEpoch
 			}
 			id := conn.NextID()
-			conn.Cmd(&protocol.Command{Id: id, Subscribe: req})
+			runParked(func() { conn.Cmd(&protocol.Command{Id: id, Subscribe: req}) })
 			vfSettle()
 			for _, f := range conn.Frames() {
 				if f.Err != nil {
@@ -191,7 +238,7 @@ func vfC03Run(t *testing.T, cs vfC03Case, out *vfC03Out, isKnown func(string) bo
 			if cs.Mode == 4 {
 				creq.Subs = map[string]*protocol.SubscribeRequest{ch: {Recover: true, Offset: reqOffset, Epoch: reqEpoch}}
 			}
-			conn.Connect(creq)
+			runParked(func() { conn.Connect(creq) })
 			vfSettle()
 			for _, f := range conn.Frames() {
 				if f.Err != nil {
@@ -207,6 +254,21 @@ func vfC03Run(t *testing.T, cs vfC03Case, out *vfC03Out, isKnown func(string) bo
 		}
 		frames := vfRenderFrames(conn.Frames())
 
+		// publications issued inside the subscribe window are buffered and merged: they take part in "newest visible",
+		// while recovered= was decided at the history read
+		holdsAtRead := withPos && reqOffset > 0 && reqOffset == m.top && reqEpoch == curEpoch
+		if len(window) > 0 {
+			out.labels = append(out.labels, "publications_inside_subscribe_window")
+			out.nontrivial = true
+			if windowEpochChange {
+				out.labels = append(out.labels, "window_epoch_change_unjudged")
+				return ""
+			}
+			for _, wp := range window {
+				m.top = wp.Off
+				m.retained = append(m.retained, wp)
+			}
+		}
 		// ---- expectations (evaluated on the state after a populating handler ran) ----------------------
 		var newest, visible *vfC02ModelPub
 		if n := len(m.retained); n > 0 {
@@ -226,6 +288,10 @@ func vfC03Run(t *testing.T, cs vfC03Case, out *vfC03Out, isKnown func(string) bo
 			holdsCurrent = false // the position moved
 		}
 		expectRecovered := newest != nil || holdsCurrent
+		if len(window) > 0 {
+			holdsCurrent = holdsAtRead
+			expectRecovered = newestAtRead || holdsAtRead
+		}
 
 		if retainedBefore > 0 && (newest != visible || h.TrimmedOrExpired || handlerPublished) || (retainedBefore == 0 && topBefore > 0) || handlerPublished {
 			out.nontrivial = true
